@@ -13,6 +13,33 @@ run_test() { # <pkgdir> <testfile> <testname> <resultjson>
   echo "{\"Replace\":{\"$1/zz_govc_standin_test.go\":\"$2\"}}" > "$S/ov.json"
   (cd "$1" && GOVC_STANDIN_OUT="$4" GOVC_STANDIN_TIER="$TIER" VERIF_SEED="${VERIF_SEED:-0}" go test -overlay "$S/ov.json" -vet=off -count=1 -timeout 900s -run "^$3\$" . > "$S/test.log" 2>&1) || { echo "stand-in test $3 failed to run:"; tail -5 "$S/test.log"; return 1; }
 }
+
+# generic driver for stand-ins whose result JSON has evaluations/distinct_nontrivial/failures and named failure counters
+generic_standin() { # <pkgdir> <testfile> <testname> <key> <name> <bound> <comma-separated failure counters>
+  run_test "$1" "$2" "$3" "$S/$4.json" || exit 3
+  python3 - "$ID" "$S/$4.json" "$OUT" "$RV" "$TIER" "$4" "$5" "$6" "$7" <<'PY'
+import json,sys,os
+pid,res,out,V,tier,key,name,bound,counters=sys.argv[1:10]
+r=json.load(open(res))
+bad=sum(r.get(c,0) for c in counters.split(",") if c)
+entry={"name":name,"bounded":True,"bound":bound,"exhaustive":(tier=="thorough" or key!="diff")}
+entry.update({k:v for k,v in r.items() if k!="failures"})
+extra={"bounded_standins":[entry]}
+if os.path.exists(out):
+    try:
+        old=json.load(open(out)); extra["bounded_standins"]=old.get("bounded_standins",[])+[entry]
+        for k,v in old.items():
+            if k!="bounded_standins": extra[k]=v
+    except Exception: pass
+json.dump(extra,open(out,"w"),indent=1)
+if bad:
+    os.makedirs(V+"/replays",exist_ok=True)
+    rp=V+"/replays/%s-standin.%s.json"%(pid,key)
+    json.dump({"obligation":"standin."+key,"kind":"bounded stand-in","failures":r.get("failures",[]),"result":{k:v for k,v in r.items() if k!="failures"},"how_to_rerun":"./check %s %s"%(pid,tier)},open(rp,"w"),indent=1)
+    print("VIOLATION property=%s replay=%s"%(pid,rp))
+    sys.exit(1)
+PY
+}
 case "$ID" in
 C10|C11)
   run_test "$REPO" "$V/standins/filter_standin_test.go" TestGovcStandinFilter "$S/filter.json" || exit 3
@@ -74,6 +101,18 @@ if viol:
     print("VIOLATION property=%s replay=%s"%(pid,rp))
     sys.exit(1)
 PY
+  rc=$?
+  ;;
+C12)
+  generic_standin "$REPO" "$V/standins/validator_standin_test.go" TestGovcStandinValidator validator "real Validator vs executable specification of the statement (completeness direction, reject-at-first-offender), and ComparePath vs component-wise comparison" "all sequences of length <= 3 (quick) / <= 4 (thorough) over a 16-path alphabet of well- and ill-formed paths x {dir, file, delete-dir, delete-file}; 22x22 path pairs for the order" "disagreements,order_mismatches"
+  rc=$?
+  ;;
+C02|C05|C01)
+  generic_standin "$REPO" "$V/standins/diff_standin_test.go" TestGovcStandinDiff diff "real doubleWalkDiff over in-memory walkers vs executable specification of the diff (adds, modifies iff identity differs, top-most deletes only)" "all 725 parent-closed ascending lists over {a, a-b, a/b, a/b/c, ab} x {dir,file} x 2 identities; pairs: seeded 1/16 slice (quick) / all 525625 (thorough); differ in {metadata, none}" "disagreements"
+  rc=$?
+  ;;
+C16)
+  generic_standin "$REPO/copy" "$V/standins/copy_standin_test.go" TestGovcStandinCopy copy "set of paths written by the real Copy vs filtered fsutil.Walk of the same tree, into empty and populated destinations" "2 on-disk trees x include/exclude lists with <= 2 (quick) / <= 3 (thorough) patterns from a 23-pattern pool x {empty, populated destination}" "disagreements,preexisting_entries_lost"
   rc=$?
   ;;
 *)
